@@ -49,7 +49,8 @@ fn source(role: Role, name: &str) -> String {
         Role::NestedComponent => format!("Mq1 DEFINITIONS AUTOMATIC TAGS ::= BEGIN\nTq1 ::= SEQUENCE {{ fq1 SEQUENCE {{ {name} BOOLEAN }}, fq2 CHOICE {{ {name} NULL, cq3 BOOLEAN }} }}\nEND\n"),
         Role::TypeChoice => format!("Mq1 DEFINITIONS AUTOMATIC TAGS ::= BEGIN\n{name} ::= CHOICE {{ cq1 BOOLEAN, cq2 NULL }}\nTq2 ::= SEQUENCE {{ fq2 {name} }}\nEND\n"),
         Role::TypeEnumerated => format!("Mq1 DEFINITIONS AUTOMATIC TAGS ::= BEGIN\n{name} ::= ENUMERATED {{ eq1, eq2 }}\nTq2 ::= SEQUENCE {{ fq2 {name} }}\nEND\n"),
-        Role::TypeCollection => format!("Mq1 DEFINITIONS AUTOMATIC TAGS ::= BEGIN\n{name} ::= SEQUENCE OF BOOLEAN\nTq2 ::= SEQUENCE {{ fq2 {name} }}\nEND\n"),
+        // the element type is anonymous and constrained, so it is hoisted into an item named after the collection
+        Role::TypeCollection => format!("Mq1 DEFINITIONS AUTOMATIC TAGS ::= BEGIN\n{name} ::= SEQUENCE OF INTEGER (0..5)\nTq2 ::= SEQUENCE {{ fq2 {name} }}\nEND\n"),
         Role::TypeDelegate => format!("Mq1 DEFINITIONS AUTOMATIC TAGS ::= BEGIN\n{name} ::= INTEGER (0..7)\nTq2 ::= SEQUENCE {{ fq2 {name} }}\nEND\n"),
         Role::HoistParent => format!("Mq1 DEFINITIONS AUTOMATIC TAGS ::= BEGIN\nTq1 ::= SEQUENCE {{ {name} SEQUENCE {{ fq8 BOOLEAN }}, fq2 INTEGER }}\nTq2 ::= CHOICE {{ {name} SET {{ fq9 NULL }}, cq3 BOOLEAN }}\nEND\n"),
     }
@@ -121,6 +122,24 @@ fn judge(role: Role, name: &str, generated: &str) -> Result<Vec<(String, String)
         for id in ids {
             if !legal_ident(&id) || is_rust_keyword(&id) || id.contains('-') {
                 out.push(("illegal-identifier".into(), format!("`{id}` in the output is not a legal non-keyword identifier")));
+            }
+        }
+    }
+    // hoisted helper types (`Anonymous..`, `Inner..`) are referred to by the identifier they are defined with
+    for m in &mods {
+        let defined: std::collections::BTreeSet<&str> = m.items.iter().filter(|i| matches!(i.kind, Kind::Struct { .. } | Kind::Enum { .. })).map(|i| i.name.as_str()).collect();
+        for it in &m.items {
+            let tys: Vec<&str> = match &it.kind {
+                Kind::Struct { fields, .. } => fields.iter().map(|f| f.ty.as_str()).collect(),
+                Kind::Enum { variants } => variants.iter().flat_map(|v| v.payload.iter().map(|p| p.as_str())).collect(),
+                _ => vec![],
+            };
+            for t in tys {
+                for w in t.split(|c: char| !(c.is_alphanumeric() || c == '_')).filter(|w| w.starts_with("Anonymous") || w.starts_with("Inner")) {
+                    if !defined.contains(w) {
+                        out.push(("hoisted-type-reference-undefined".into(), format!("`{}` mentions the hoisted type `{w}`, which is not defined (defined: {:?})", it.name, defined.iter().filter(|d| d.starts_with("Anonymous") || d.starts_with("Inner")).collect::<Vec<_>>())));
+                    }
+                }
             }
         }
     }
